@@ -208,7 +208,8 @@ theorem slideStep_merge_pick (fuel : Nat) (s : VM) (f : FUid) (h : HUid) (i : In
         simp only []
         rw [applyOp_ok _ t hgd]
         simp only [modInstX, modifyRest, modify, modifyGet, MonadStateOf.modifyGet, EStateM.modifyGet]
-        refine ⟨_, { xt with forkUids := OMap.erase c xt.forkUids }, rfl, ?_, rfl, rfl, ?_, rfl, rfl⟩
+        refine ⟨_, { xt with forkUids := OMap.erase c xt.forkUids }, rfl, ?_, rfl, rfl, ?_, rfl, rfl,
+        fun k hk => by simp only [OMap.lookup_erase, hk, if_false], rfl⟩
         · exact { hi := findInst_delHead t.ixs.ix f c it Ft.hi, hx := lookup_modify_self f _ t.r.fx xt Ft.hx, hc := Ft.hc }
         · intro k _; rfl
       · obtain ⟨hgs, hss⟩ := setHeadStatus_inactive_ok t f c it cd Ft.hi hcd hin
@@ -221,7 +222,8 @@ theorem slideStep_merge_pick (fuel : Nat) (s : VM) (f : FUid) (h : HUid) (i : In
         simp only []
         rw [applyOp_ok _ _ hgd]
         simp only [modInstX, modifyRest, modify, modifyGet, MonadStateOf.modifyGet, EStateM.modifyGet]
-        refine ⟨_, { xt with forkUids := OMap.erase c xt.forkUids }, rfl, ?_, rfl, rfl, ?_, rfl, rfl⟩
+        refine ⟨_, { xt with forkUids := OMap.erase c xt.forkUids }, rfl, ?_, rfl, rfl, ?_, rfl, rfl,
+        fun k hk => by simp only [OMap.lookup_erase, hk, if_false], rfl⟩
         · refine { hi := ?_, hx := lookup_modify_self f _ t.r.fx xt Ft.hx, hc := Ft.hc }
           have := findInst_delHead _ f c _ his
           rw [filter_modifyHead it c (fun y => { y with status := HeadStatus.inactive, elem := none }) (fun _ => rfl)] at this
@@ -258,7 +260,7 @@ theorem slideStep_merge_pick (fuel : Nat) (s : VM) (f : FUid) (h : HUid) (i : In
         have hex0 := (indexOK_of_vm s0).exact (f, c) (by simp [instStatus, H0.hi, hns])
         rw [hex0]
         simp [want, H0.hi, Inst.want, hcd, hin]
-    obtain ⟨s12, x12, hrun, F12, ho12, hf12, hn12, hfu12⟩ := delLoop_spec body f cfg hiter cs s11 _ x hnd F11 hchildren
+    obtain ⟨s12, x12, hrun, F12, ho12, hf12, hn12, hfu12, hhx12, hcl12⟩ := delLoop_spec body f cfg hiter cs s11 _ x hnd F11 hchildren
     rw [hrun]
     have hlk : OMap.lookup u x12.forkUids = some r := by rw [hfu12, lookup_eraseAll u cs _ hucs]; exact hfu
     simp only [getInstX, getInstX?, getRest, bind, EStateM.bind, get, getThe, MonadStateOf.get, EStateM.get, pure, EStateM.pure, F12.hx, hlk,
@@ -334,7 +336,8 @@ theorem slideStep_merge_pick (fuel : Nat) (s : VM) (f : FUid) (h : HUid) (i : In
         simp only []
         rw [applyOp_ok _ t hgd]
         simp only [modInstX, modifyRest, modify, modifyGet, MonadStateOf.modifyGet, EStateM.modifyGet]
-        refine ⟨_, { xt with forkUids := OMap.erase c xt.forkUids }, rfl, ?_, rfl, rfl, ?_, rfl, rfl⟩
+        refine ⟨_, { xt with forkUids := OMap.erase c xt.forkUids }, rfl, ?_, rfl, rfl, ?_, rfl, rfl,
+        fun k hk => by simp only [OMap.lookup_erase, hk, if_false], rfl⟩
         · exact { hi := findInst_delHead t.ixs.ix f c it Ft.hi, hx := lookup_modify_self f _ t.r.fx xt Ft.hx, hc := Ft.hc }
         · intro k _; rfl
       · obtain ⟨hgs, hss⟩ := setHeadStatus_inactive_ok t f c it cd Ft.hi hcd hin
@@ -347,7 +350,8 @@ theorem slideStep_merge_pick (fuel : Nat) (s : VM) (f : FUid) (h : HUid) (i : In
         simp only []
         rw [applyOp_ok _ _ hgd]
         simp only [modInstX, modifyRest, modify, modifyGet, MonadStateOf.modifyGet, EStateM.modifyGet]
-        refine ⟨_, { xt with forkUids := OMap.erase c xt.forkUids }, rfl, ?_, rfl, rfl, ?_, rfl, rfl⟩
+        refine ⟨_, { xt with forkUids := OMap.erase c xt.forkUids }, rfl, ?_, rfl, rfl, ?_, rfl, rfl,
+        fun k hk => by simp only [OMap.lookup_erase, hk, if_false], rfl⟩
         · refine { hi := ?_, hx := lookup_modify_self f _ t.r.fx xt Ft.hx, hc := Ft.hc }
           have := findInst_delHead _ f c _ his
           rw [filter_modifyHead it c (fun y => { y with status := HeadStatus.inactive, elem := none }) (fun _ => rfl)] at this
@@ -384,7 +388,7 @@ theorem slideStep_merge_pick (fuel : Nat) (s : VM) (f : FUid) (h : HUid) (i : In
         have hex0 := (indexOK_of_vm s0).exact (f, c) (by simp [instStatus, H0.hi, hns])
         rw [hex0]
         simp [want, H0.hi, Inst.want, hcd, hin]
-    obtain ⟨s12, x12, hrun, F12, ho12, hf12, hn12, hfu12⟩ := delLoop_spec body f cfg hiter cs s11 _ x hnd F11 hchildren
+    obtain ⟨s12, x12, hrun, F12, ho12, hf12, hn12, hfu12, hhx12, hcl12⟩ := delLoop_spec body f cfg hiter cs s11 _ x hnd F11 hchildren
     rw [hrun]
     have hlk : OMap.lookup u x12.forkUids = some r := by rw [hfu12, lookup_eraseAll u cs _ hucs]; exact hfu
     simp only [getInstX, getInstX?, getRest, bind, EStateM.bind, get, getThe, MonadStateOf.get, EStateM.get, pure, EStateM.pure, F12.hx, hlk,
